@@ -60,6 +60,8 @@ def rewrite(s, what):
         s = re.sub(r'(?m)^(\s*)"sync"$', r'\1sync "%s/verifshim/vsync"' % MOD, s)
     if "atomic" in what:
         s = re.sub(r'(?m)^(\s*)"sync/atomic"$', r'\1atomic "%s/verifshim/vatomic"' % MOD, s)
+    if "sendgate" in what:
+        s = re.sub(r'(?m)^(\s*)(m\.(headerInCh|dataInCh) <- )', r'\1m.verifSendGate("\3"); \2', s)
     if "os" in what:
         s = re.sub(r'(?m)^(\s*)"os"$', r'\1os "%s/verifshim/vos"' % MOD, s)
     return s
